@@ -278,20 +278,21 @@ func countDistinct(xs []uint64) uint64 {
 // ---------------------------------------------------------------------------------------
 
 type Finding struct {
-	Property  string `json:"property"`
-	ID        string `json:"id"`
-	Status    string `json:"status"` // "known" or "fixed"
-	What      string `json:"what"`
-	Commit    string `json:"commit,omitempty"`
-	CaseRegex string `json:"case_regex,omitempty"` // matched against the JSON of the case
-	MsgRegex  string `json:"msg_regex,omitempty"`  // matched against the violation message
-	caseRe    *regexp.Regexp
-	msgRe     *regexp.Regexp
+	Property   string `json:"property"`
+	ID         string `json:"id"`
+	Status     string `json:"status"` // "known" or "fixed"
+	What       string `json:"what"`
+	Commit     string `json:"commit,omitempty"`
+	KindRegex  string `json:"kind_regex,omitempty"`  // matched against Case.Kind
+	InputRegex string `json:"input_regex,omitempty"` // matched against "a=<A>\nb=<B>\nc=<C>\nx=<X>\n"
+	MsgRegex   string `json:"msg_regex,omitempty"`   // matched against the violation message
+	kindRe     *regexp.Regexp
+	inputRe    *regexp.Regexp
+	msgRe      *regexp.Regexp
 }
 
 type FindingsFile struct {
 	Findings []Finding `json:"findings"`
-	Fixed    []string  `json:"fixed"`
 }
 
 func LoadFindings(path string) ([]Finding, error) {
@@ -306,36 +307,44 @@ func LoadFindings(path string) ([]Finding, error) {
 	if err := json.Unmarshal(b, &ff); err != nil {
 		return nil, err
 	}
+	comp := func(s string) (*regexp.Regexp, error) {
+		if s == "" {
+			return nil, nil
+		}
+		return regexp.Compile(s)
+	}
 	for i := range ff.Findings {
 		f := &ff.Findings[i]
-		if f.CaseRegex != "" {
-			f.caseRe, err = regexp.Compile(f.CaseRegex)
-			if err != nil {
-				return nil, err
-			}
+		if f.kindRe, err = comp(f.KindRegex); err != nil {
+			return nil, err
 		}
-		if f.MsgRegex != "" {
-			f.msgRe, err = regexp.Compile(f.MsgRegex)
-			if err != nil {
-				return nil, err
-			}
+		if f.inputRe, err = comp(f.InputRegex); err != nil {
+			return nil, err
+		}
+		if f.msgRe, err = comp(f.MsgRegex); err != nil {
+			return nil, err
 		}
 	}
 	return ff.Findings, nil
+}
+
+// CaseInput is the text the input_regex of a finding is matched against.
+func CaseInput(c *Case) string {
+	return "a=" + c.A + "\nb=" + c.B + "\nc=" + c.C + "\nx=" + c.X + "\n"
 }
 
 func (f *Finding) Matches(property string, v *Violation) bool {
 	if f.Status != "known" || f.Property != property {
 		return false
 	}
-	if f.caseRe == nil && f.msgRe == nil {
+	if f.inputRe == nil && f.msgRe == nil {
+		return false // a finding must name the failing input or failure
+	}
+	if f.kindRe != nil && !f.kindRe.MatchString(v.Case.Kind) {
 		return false
 	}
-	if f.caseRe != nil {
-		b, _ := json.Marshal(v.Case)
-		if !f.caseRe.Match(b) {
-			return false
-		}
+	if f.inputRe != nil && !f.inputRe.MatchString(CaseInput(&v.Case)) {
+		return false
 	}
 	if f.msgRe != nil && !f.msgRe.MatchString(v.Msg) {
 		return false
